@@ -20,11 +20,23 @@ Fixpoint unrle (l : list seg) : list Z :=
 Definition mkI (time opcode mask : Z) (args : list seg) (diff pop extra argc : Z) : instr :=
   mkInstr time opcode mask (unrle args) diff pop extra argc.
 
+(* an instruction whose argument bytes are [len] bytes at offset [off] of the bytes the implementation
+   wrote (the harness has compared them with the requested blob before using this form: it only saves
+   repeating the bytes in the case file) *)
+Inductive cinstr := CI (time opcode mask : Z) (args : list seg) (diff pop extra argc : Z)
+                  | CS (time opcode mask : Z) (off len : Z) (diff pop extra argc : Z).
+Definition slice (reg : list Z) (off len : Z) : list Z := firstn (Z.to_nat len) (skipn (Z.to_nat off) reg).
+Definition of_cinstr (reg : list Z) (c : cinstr) : instr :=
+  match c with
+  | CI t o m a d p e n => mkInstr t o m (unrle a) d p e n
+  | CS t o m off len d p e n => mkInstr t o m (slice reg off len) d p e n
+  end.
+
 (* one script: the format of its instructions, whether another script follows it in the file (then the
    reader is given the offset of that script as end offset), its offset, the instructions asked for,
    what the writer did (the bytes of the file from the script's offset on) and what the reader returned *)
 Inductive c03case :=
-| KScript (f : fmt) (next : bool) (start : Z) (l : list instr) (w : ires (list seg)) (r : ires (list instr)).
+| KScript (f : fmt) (next : bool) (start : Z) (l : list cinstr) (w : ires (list seg)) (r : ires (list cinstr)).
 
 Fixpoint zlist_eqb (a b : list Z) : bool :=
   match a, b with
@@ -57,14 +69,19 @@ Definition agree_read (asked : list instr) (m : outcome (list instr)) (i : ires 
   | _, _ => false
   end.
 
+Definition map_ires {A B} (g : A -> B) (i : ires A) : ires B :=
+  match i with IOk a => IOk (g a) | IErr => IErr | IPanic => IPanic | ISame => ISame end.
+
 Definition model_of (c : c03case) : bool :=
   match c with
-  | KScript f next start l w r =>
+  | KScript f next start cl w r =>
+      let reg := match w with IOk segs => unrle segs | _ => [] end in
+      let l := map (of_cinstr reg) cl in
       match write_instrs f l, w with
-      | Ok mw, IOk hex =>
-          let reg := unrle hex in
+      | Ok mw, IOk _ =>
           prefixb mw reg &&
-          agree_read l (read_instrs f reg start (if next then Some (start + Z.of_nat (length mw)) else None)) r
+          agree_read l (read_instrs f reg start (if next then Some (start + Z.of_nat (length mw)) else None))
+                     (map_ires (map (of_cinstr reg)) r)
       | Err _, IErr => true
       | Panic _, IPanic => true
       | _, _ => false
